@@ -96,6 +96,10 @@ func (fc *funcContext) translateExpr(expr ast.Expr) *expression {
 		}
 	}
 
+	if reordered := fc.preserveOperandOrder(expr); reordered != nil {
+		expr = reordered
+	}
+
 	switch e := expr.(type) {
 	case *ast.CompositeLit:
 		if ptrType, isPointer := exprType.Underlying().(*types.Pointer); isPointer {
@@ -919,6 +923,68 @@ func (fc *funcContext) translateCall(e *ast.CallExpr, sig *types.Signature, fun 
 	return fc.formatExpr("%s(%s)", fun, strings.Join(args, ", "))
 }
 
+// preserveOperandOrder keeps the calls and receive operations of the operands of
+// a binary, index or slice expression in source order when a later operand may
+// block: that operand is evaluated in statements preceding the expression, so
+// the operands before it which contain calls or receive operations are
+// evaluated into variables first. It returns nil if nothing has to change.
+func (fc *funcContext) preserveOperandOrder(expr ast.Expr) ast.Expr {
+	var operands []*ast.Expr
+	var reordered ast.Expr
+	switch e := expr.(type) {
+	case *ast.BinaryExpr:
+		if e.Op == token.LAND || e.Op == token.LOR {
+			return nil // The right operand is evaluated conditionally.
+		}
+		c := *e
+		operands, reordered = []*ast.Expr{&c.X, &c.Y}, &c
+	case *ast.IndexExpr:
+		if tv, ok := fc.pkgCtx.Types[e.X]; ok && tv.IsType() {
+			return nil // Instantiation of a generic type.
+		}
+		if _, isSig := fc.typeOf(e.X).Underlying().(*types.Signature); isSig {
+			return nil // Instantiation of a generic function.
+		}
+		c := *e
+		operands, reordered = []*ast.Expr{&c.X, &c.Index}, &c
+	case *ast.SliceExpr:
+		c := *e
+		operands = []*ast.Expr{&c.X}
+		for _, bound := range []*ast.Expr{&c.Low, &c.High, &c.Max} {
+			if *bound != nil {
+				operands = append(operands, bound)
+			}
+		}
+		reordered = &c
+	default:
+		return nil
+	}
+	lastBlocking := -1
+	for i, operand := range operands {
+		if fc.Blocking[*operand] {
+			lastBlocking = i
+		}
+	}
+	changed := false
+	for i := 0; i < lastBlocking; i++ {
+		operand := *operands[i]
+		if fc.pkgCtx.Types[operand].Value != nil || !fc.hasCallOrReceive(operand) {
+			continue
+		}
+		operandVar := fc.newLocalVariable("_operand")
+		fc.Printf("%s = %s;", operandVar, fc.translateExpr(operand))
+		*operands[i] = fc.newIdent(operandVar, fc.typeOf(operand))
+		changed = true
+	}
+	if !changed {
+		return nil
+	}
+	if tv, ok := fc.pkgCtx.Types[expr]; ok {
+		fc.pkgCtx.Types[reordered] = tv
+	}
+	return reordered
+}
+
 // hoistCallee makes sure that the calls and receive operations in the operand
 // that yields the called function value or the method receiver (x, translated as
 // callee) happen before the ones in the arguments of call.
@@ -945,6 +1011,13 @@ func (fc *funcContext) calleeNeedsHoisting(call *ast.CallExpr, x ast.Expr) bool 
 	if !hoistedArgs {
 		return false
 	}
+	return fc.hasCallOrReceive(x)
+}
+
+// hasCallOrReceive reports whether x contains a function call or a receive
+// operation (outside of function literals), the operations whose order the
+// language specification fixes.
+func (fc *funcContext) hasCallOrReceive(x ast.Expr) bool {
 	ordered := false
 	ast.Inspect(x, func(n ast.Node) bool {
 		switch n := n.(type) {
